@@ -44,9 +44,10 @@ class TracedDeque(deque):
 
 
 class T:
-    def __init__(self, sc, tid, follow=0, steps=1, exc=None, hold=False):
+    def __init__(self, sc, tid, follow=0, steps=1, exc=None, hold=False, bad_repr=False):
         self.sc, self.tid, self.follow, self.steps, self.exc = sc, tid, follow, steps, exc
         self.hold = hold
+        self.bad_repr = bad_repr
         self.served = 0
         self.cancelled = 0
 
@@ -70,6 +71,8 @@ class T:
         self.cancelled += 1
 
     def __repr__(self):
+        if self.bad_repr:
+            raise RuntimeError("repr of task %s fails" % self.tid)   # an error path inside the error path (the failure is being logged)
         return "<T %s>" % self.tid
 
 
@@ -101,7 +104,8 @@ def run_scenario(case, source, record_decisions=False):
         def submitter(specs, si):
             for j, sp in enumerate(specs):
                 sched.yield_point("submit")
-                t = T(sc, "s%d.%d" % (si, j), follow=sp.get("follow", 0), steps=sp.get("steps", 1), exc=sp.get("exc"), hold=bool(sp.get("hold")))
+                t = T(sc, "s%d.%d" % (si, j), follow=sp.get("follow", 0), steps=sp.get("steps", 1), exc=sp.get("exc"), hold=bool(sp.get("hold")),
+                      bad_repr=bool(sp.get("bad_repr")))
                 sc.tasks.append(t)
                 disp.add_task(t)
             done["subs"] += 1
@@ -235,7 +239,8 @@ def run_case(case):
 # ---------------------------------------------------------------- generation
 def scenario_strategy():
     task = st.fixed_dictionaries({"follow": st.sampled_from([0, 0, 0, 1, 2]), "steps": st.integers(0, 2),
-                                  "exc": st.sampled_from([None, None, None, None, "ValueError", "SystemExit"]), "hold": st.sampled_from([False, False, False, True])})
+                                  "exc": st.sampled_from([None, None, None, None, "ValueError", "SystemExit"]), "hold": st.sampled_from([False, False, False, True]),
+                                  "bad_repr": st.sampled_from([False, False, True])})
     return st.fixed_dictionaries({
         "workers": st.integers(1, 3),
         "submitters": st.lists(st.lists(task, min_size=1, max_size=4), min_size=1, max_size=3),
@@ -252,6 +257,9 @@ FIXED = [
     {"workers": 2, "submitters": [[{"follow": 0, "steps": 2}, {"follow": 0, "steps": 0}]], "ops": [["resize", 1], ["resize", 2], ["resize", 2]], "shutdown": True},
     {"workers": 1, "submitters": [[{"follow": 2, "steps": 0}]], "ops": [], "shutdown": False},
     {"workers": 2, "submitters": [[{"follow": 0, "steps": 1}], [{"follow": 0, "steps": 1}]], "ops": [["resize", 0], ["resize", 2]], "shutdown": None},
+    # a task that fails and whose repr() fails too (the failure is logged with the task in the message)
+    {"workers": 1, "submitters": [[{"follow": 0, "steps": 0, "exc": "ValueError", "bad_repr": True}, {"follow": 0, "steps": 0}, {"follow": 0, "steps": 1}]], "ops": [["resize", 2]], "shutdown": True},
+    {"workers": 2, "submitters": [[{"follow": 1, "steps": 0, "exc": "SystemExit", "bad_repr": True}], [{"follow": 0, "steps": 1}]], "ops": [], "shutdown": None},
     # long-running tasks keep some workers busy: whatever else is submitted has to be taken by the idle ones
     {"workers": 2, "submitters": [[{"follow": 0, "steps": 0, "hold": True}], [{"follow": 0, "steps": 0}]], "ops": [], "shutdown": None},
     {"workers": 3, "submitters": [[{"follow": 0, "steps": 0, "hold": True}, {"follow": 0, "steps": 1}], [{"follow": 1, "steps": 0, "hold": True}]], "ops": [], "shutdown": None},
